@@ -196,8 +196,15 @@ impl<U> NumDecompressor<U> where U: UnsignedLike {
     })
   }
 
-  pub fn bits_remaining(&self) -> usize {
-    self.compressed_body_size * 8 - self.state.bits_processed
+  // Errors if more bits have already been decoded than the chunk metadata
+  // says the body contains (only possible with corrupt metadata).
+  pub fn bits_remaining(&self) -> QCompressResult<usize> {
+    (self.compressed_body_size * 8).checked_sub(self.state.bits_processed)
+      .ok_or_else(|| QCompressError::corruption(format!(
+        "already processed {} bits of a compressed body said to contain {} bytes",
+        self.state.bits_processed,
+        self.compressed_body_size,
+      )))
   }
 
   fn limit_reps(
